@@ -687,6 +687,7 @@ func checkC09(c *Ctx) string {
 		names = append(names, m.fs.name)
 	}
 	sort.Strings(names)
+	checkOverIterModeCopy(c, "C09.4 K9 the mode an OverIter remembers equals the mode of its sources")
 	return "Static shape of iterator invalidation. Decided: (1) the functions of package ixbuf that store to ixbuf.chunks / ixbuf.size or through a slice / slot pointer that aliases the chunk list (" +
 		strings.Join(names, ", ") + ") pair every such store with modCount++ on the same buffer (before it, or on every normal path after it), or have no bump of their own and are called only at sites that are paired with one; " +
 		"(2) Iterator.Modified is evaluated over 4 counter pairs against 'snapshot != buffer counter', and every store to the snapshot takes the buffer's counter; " +
